@@ -353,6 +353,75 @@ impl SeqConn {
     }
 }
 
+/// Independent structural check of one response (property C11): returns a
+/// description of what is wrong with the frame, if anything.
+pub fn frame_defect(r: &[u8]) -> Option<String> {
+    let (f, used) = match parse_resp(r) {
+        Some(x) => x,
+        None => return Some("not a complete frame".into()),
+    };
+    if used != r.len() {
+        return Some("bytes beyond the announced body".into());
+    }
+    if f.magic != 0x81 {
+        return Some(format!("magic {:#x}", f.magic));
+    }
+    if f.dtype != 0 {
+        return Some("data type".into());
+    }
+    const TABLE: &[u16] = &[0, 1, 2, 3, 4, 5, 6, 0x20, 0x21, 0x81, 0x82];
+    if !TABLE.contains(&f.status) {
+        return Some(format!("status {:#x} not in the protocol table", f.status));
+    }
+    if (f.extlen as u32) + (f.keylen as u32) > f.bodylen {
+        return Some("extras + key exceed body".into());
+    }
+    if f.status != 0 {
+        let msg: &[u8] = match f.status {
+            1 => b"Not found",
+            2 => b"Key exists",
+            3 => b"Value too big",
+            6 => b"Incr/Decr on non numeric value",
+            0x81 => b"Invalid command",
+            _ => return Some(format!("unexpected error status {:#x}", f.status)),
+        };
+        if f.extlen != 0 || f.keylen != 0 || f.body != msg {
+            return Some("error frame shape".into());
+        }
+        return None;
+    }
+    match f.opcode {
+        op::GET | op::GETQ | op::GETK | op::GETKQ => {
+            if f.extlen != 4 {
+                return Some("hit without 4 flag bytes".into());
+            }
+            let with_key = f.opcode == op::GETK || f.opcode == op::GETKQ;
+            if !with_key && f.keylen != 0 {
+                return Some("key echoed by plain get".into());
+            }
+            if with_key && f.keylen == 0 {
+                return Some("key not echoed by getk".into());
+            }
+        }
+        op::INCR | op::DECR | op::INCRQ | op::DECRQ => {
+            if f.extlen != 0 || f.keylen != 0 || f.bodylen != 8 {
+                return Some("counter frame shape".into());
+            }
+        }
+        op::VERSION | op::STAT => {
+            if f.extlen != 0 || f.keylen != 0 {
+                return Some("version frame shape".into());
+            }
+        }
+        _ => {
+            if f.bodylen != 0 || f.extlen != 0 || f.keylen != 0 {
+                return Some("body on an empty response".into());
+            }
+        }
+    }
+    None
+}
+
 // ---------------------------------------------------------------- generation
 
 #[derive(Clone, Debug)]
@@ -403,6 +472,9 @@ pub fn run_case(cfg: &CaseCfg, events: &mut dyn FnMut(&[Vec<u8>], bool) -> Optio
                 let _ = writeln!(trace, "C {} {}", i, hex(&b));
                 for r in &out {
                     let _ = writeln!(obs, "R {}", hex(r));
+                    if let Some(d) = frame_defect(r) {
+                        let _ = writeln!(obs, "W malformed-response {}", d.replace(' ', "_"));
+                    }
                 }
                 let _ = writeln!(obs, "{}", w.status_line(i));
                 open = w.conn(i).status == Status::Open;
@@ -499,6 +571,8 @@ pub struct Gen {
     pub opaque: u32,
     /// opaque -> key of the request
     pub sent: HashMap<u32, Vec<u8>>,
+    /// opaque -> opcode of the request
+    pub sent_op: HashMap<u32, u8>,
     /// CAS values seen per key (from responses), oldest first
     pub cas_seen: HashMap<Vec<u8>, Vec<u64>>,
     pub steps_left: usize,
@@ -519,6 +593,7 @@ impl Gen {
             item_limit,
             opaque: 1,
             sent: HashMap::new(),
+            sent_op: HashMap::new(),
             cas_seen: HashMap::new(),
             steps_left: steps,
             pending_dump: false,
@@ -729,6 +804,7 @@ impl Gen {
         }
         req.opaque = self.opaque;
         self.sent.insert(self.opaque, req.key.clone());
+        self.sent_op.insert(self.opaque, req.opcode);
         self.opaque = self.opaque.wrapping_add(1);
         req
     }
@@ -772,12 +848,19 @@ impl Gen {
                 return self.rng.bytes(n);
             }
         }
+        self.sent_op.insert(req.opaque, req.opcode);
         req.bytes()
     }
 
     fn learn(&mut self, responses: &[Vec<u8>]) {
         for r in responses {
             if let Some((resp, _)) = parse_resp(r) {
+                // correlation (C11): the response names a request we sent, with its opcode
+                match self.sent_op.get(&resp.opaque) {
+                    Some(o) if *o == resp.opcode => {}
+                    Some(_) => self.count("c11_opcode_not_echoed"),
+                    None => {}
+                }
                 if resp.status == 0 && resp.cas != 0 {
                     if let Some(k) = self.sent.get(&resp.opaque) {
                         let e = self.cas_seen.entry(k.clone()).or_default();
